@@ -249,6 +249,14 @@ def check(recipe) -> list[Fail]:
     src, owner = build(src_cls, recipe["mol"])
     tag = route.split(":")[0].replace("+", "_")   # root causes are keyed by route kind; classes go into the detail
     who = f"[{src_cls} -> {route}] "
+    wrapped = bool(recipe.get("wrapped")) and src_cls in ("Structure", "Molecule") and src.n_atoms > 0
+    if wrapped:
+        # the source's Atom objects were handed, uncopied, to a throw-away container earlier (e.g. ml.Promolecule(m.atoms).formula)
+        # which is gone again: their weak parent reference is dead, the source itself (atom list, bonds, arrays) is as before
+        import gc
+        tmp = ml.Promolecule(list(src.atoms))
+        del tmp
+        gc.collect()
     snap_src = chem.snapshot(src)
 
     # ---------------- make the copy
@@ -355,7 +363,7 @@ def check(recipe) -> list[Fail]:
     p = parents_ok(cp, "copy")
     if p:
         fails.append(Fail(f"copy-parent-or-index-wrong:{tag}", p))
-    p = parents_ok(src, "source after copying")
+    p = None if wrapped else parents_ok(src, "source after copying")
     if p:
         fails.append(Fail(f"source-parent-or-index-changed:{tag}", p))
     d = chem.snap_diff(snap_src, chem.snapshot(src))
@@ -401,7 +409,7 @@ def check(recipe) -> list[Fail]:
         d = chem.snap_diff(owner_before, chem.snapshot(owner))
         if d:
             fails.append(Fail(f"mutating-copy-changed-source-ensemble:{tag}", d))
-    p = parents_ok(b, "untouched side after mutation")
+    p = None if (wrapped and b is src) else parents_ok(b, "untouched side after mutation")
     if p:
         fails.append(Fail(f"parent-or-index-wrong-after-mutation:{tag}", p))
     if not fails and side == "source" and (route in ("pickle", "deepcopy") or route.startswith("ctor:")):
@@ -502,6 +510,7 @@ def strat(tier):
         return {
             "src_cls": src_cls, "mol": r, "mol2": draw(mol2), "route": draw(st.sampled_from(routes(src_cls))),
             "mut": draw(st.lists(_MUT, min_size=1, max_size=5)), "side": draw(st.sampled_from(["copy", "copy", "source"])),
+            "wrapped": draw(st.sampled_from([False, False, False, True])),
         }
 
     return case()
